@@ -17,6 +17,7 @@ import (
 func init() {
 	verifRegister("verifC11Notifier", verifC11Notifier)
 	verifRegister("verifC11Reselect", verifC11Reselect)
+	verifRegister("verifC11NilIsLast", verifC11NilIsLast)
 	verifRegister("verifC11GatherVsRestart", verifC11GatherVsRestart)
 	verifRegister("verifC11RestartDuringCycle", verifC11RestartDuringCycle)
 	verifRegister("verifC11RestartDuringCycleWithCandidate", verifC11RestartDuringCycleWithCandidate)
@@ -230,8 +231,10 @@ func verifC11RestartDuringCycleWithCandidate() {
 	var mu sync.Mutex
 	var ufrags []string
 	verifAssert(a.OnCandidate(func(Candidate) {}) == nil, "handler")
+	var nilsSeen atomic.Int32
 	a.candidateNotifier.candidateFunc = func(c Candidate) {
 		if c == nil {
+			nilsSeen.Add(1)
 			return
 		}
 		u, _ := c.GetExtension("ufrag")
@@ -244,11 +247,30 @@ func verifC11RestartDuringCycleWithCandidate() {
 	for k := verifChoice(verifC11MaxDelay + 4*verifTier() + 1); k > 0; k-- {
 		runtime.Gosched()
 	}
+	// what has happened so far (events occur on the loop: a candidate on record
+	// was enqueued for the handler, Complete enqueued the nil candidate)
+	var addedBefore int
+	var completeBefore bool
+	verifAssert(a.loop.Run(a.loop, func(context.Context) {
+		for _, cs := range a.localCandidates {
+			addedBefore += len(cs)
+		}
+		completeBefore = a.gatheringState == GatheringStateComplete
+	}) == nil, "loop-open")
 	verifAssert(a.Restart("freshufrag", "freshpasswordfreshpasswd") == nil, "restart-ok")
 	if done != nil {
 		<-done
 	}
 	a.candidateNotifier.notifiers.Wait()
+	// exactly once means not zero times either: an event that occurred before
+	// the Restart is still delivered, however late its handler gets to run
+	mu.Lock()
+	verifAssert(len(ufrags) >= addedBefore, "a-candidate-event-that-occurred-before-Restart-is-still-delivered")
+	mu.Unlock()
+	if completeBefore {
+		verifReach("completed-before-restart")
+		verifAssert(nilsSeen.Load() == 1, "the-nil-candidate-of-a-cycle-completed-before-Restart-is-still-delivered")
+	}
 	var nLocal int
 	verifAssert(a.loop.Run(a.loop, func(context.Context) {
 		for _, cs := range a.localCandidates {
@@ -314,5 +336,40 @@ func verifC11Reselect() {
 	mu.Lock()
 	verifAssert(len(got) == 3 && got[0] == 0 && got[1] == 1 && got[2] == 0, "a-value-notified-again-after-another-one-is-delivered-again,in-order")
 	mu.Unlock()
+	verifReach("done")
+}
+
+// The nil candidate is the LAST event of its cycle: a gatherer that is slow
+// (its socket opening is gated and released only when nothing else can move)
+// still announces its candidate before the cycle completes, whatever timers
+// are pending — the cycle waits for its gatherers. One candidate, one nil, in
+// that order.
+func verifC11NilIsLast() {
+	w := verifC08New(true)
+	a := w.a
+	gate := make(chan struct{})
+	w.net.gate = gate
+	go func() {
+		verifLetOthersRun()
+		close(gate)
+	}()
+	var mu sync.Mutex
+	var events []bool // true: a candidate, false: the nil candidate
+	verifAssert(a.OnCandidate(func(c Candidate) {
+		mu.Lock()
+		events = append(events, c != nil)
+		mu.Unlock()
+	}) == nil, "handler")
+	verifTimerTicks(2) // any timer of the gathering path may fire
+	verifAssert(a.GatherCandidates() == nil, "GatherCandidates")
+	var done chan struct{}
+	verifAssert(a.loop.Run(a.loop, func(context.Context) { done = a.gatherCandidateDone }) == nil, "loop-open")
+	<-done
+	verifLetOthersRun() // late gatherers, if any, have finished too
+	a.candidateNotifier.notifiers.Wait()
+	mu.Lock()
+	verifAssert(len(events) == 2 && events[0] && !events[1], "one-candidate-then-one-nil:the-nil-candidate-is-the-last-event-of-its-cycle")
+	mu.Unlock()
+	verifAssert(a.Close() == nil, "Close")
 	verifReach("done")
 }
